@@ -187,6 +187,10 @@ def table_path(path):
     return ".".join("[]" if isinstance(p, int) else p for p in path) or "<root>"
 
 
+import random
+_LOOKALIKE_RNG = random.Random(20261003)
+
+
 def mutants(fmt, doc):
     nodes = []
     walk(FORMATS[fmt], doc, [], nodes)
@@ -200,6 +204,17 @@ def mutants(fmt, doc):
                 break_after_first = True
                 if break_after_first and len(out) % 7:
                     break
+            # look-alike keys: the spelling variants a lenient alias would accept
+            for k in list(node.fields):
+                for cand in {k.replace("-", "_"), k.replace("_", "-"), k.capitalize(), k.upper(), k + "s", k[:-1] if k.endswith("s") else k, k.replace("-", "")}:
+                    if cand != k and cand not in node.fields and cand not in value:
+                        # the key is *renamed* to its look-alike and keeps a value of the right kind, so that only the spelling is wrong
+                        m = copy.deepcopy(doc)
+                        tgt = get_at(m, path)
+                        tgt[cand] = tgt.pop(k) if k in tgt else gen(node.fields[k][0], _LOOKALIKE_RNG, path + [k], full=True)
+                        if node.fields[k][1] and k not in value:
+                            continue
+                        out.append(("lookalike-key" if not (node.fields[k][1]) else "lookalike-key-required", table_path(path + [k]), m))
             for k, (sub, req, certain) in node.fields.items():
                 if certain and k in value:
                     m = copy.deepcopy(doc)
@@ -244,10 +259,46 @@ def parse_types(fmt):
     return [fmt]
 
 
+LAYER_ROUTES = {
+    "cached_layer": {"op": "cached", "name": "L", "build": True, "launch": False, "mtype": "typed", "restored": {"action": "keep", "cause": "c"}, "invalid": {"action": "delete", "cause": "i"}},
+    "uncached_layer": {"op": "uncached", "name": "L", "build": True, "launch": False},
+    "handle_layer": {"op": "handle", "name": "L", "impl": "v1", "types": {"launch": True, "build": False, "cache": True}, "strategy": "keep", "migrate": {"action": "recreate", "metadata_value": "m"},
+                     "create": {"metadata_value": "n", "env": None, "exec_d": [], "sboms": [], "write_files": [], "delete_files": []},
+                     "update": {"metadata_value": "n", "env": None, "exec_d": [], "sboms": [], "write_files": [], "delete_files": []}},
+}
+
+
+def layer_api_routes(lmon, work, idx, valid_text, mtexts, sh):
+    """The same strictness must hold where libcnb itself reads <layer>.toml: a document the strict parser rejects must not be
+    accepted (and the layer silently deleted / recreated) through the layer API."""
+    root = os.path.join(work, "c08-layers-%d" % os.getpid())
+    for route, req in LAYER_ROUTES.items():
+        for kind, where, text in [("valid", "-", valid_text)] + [m for m in mtexts if m[0] != "delete-required"]:
+            vp.rmtree(root)
+            os.makedirs(os.path.join(root, "layers", "L"))
+            with open(os.path.join(root, "layers", "L", "payload"), "w") as f:
+                f.write("precious cached content")
+            with open(os.path.join(root, "layers", "L.toml"), "w") as f:
+                f.write(text)
+            lmon.call({"op": "init", "layers_dir": os.path.join(root, "layers"), "app_dir": root, "bp_dir": root})
+            rep = lmon.call(req)
+            sh.evaluations += 1
+            case = {"format": "layer_toml", "as": route, "kind": kind, "where": where, "text": text, "route": "layer-api"}
+            if kind == "valid" and "err" in rep:
+                sh.violation("layer-api:%s:valid-rejected" % route, "%s fails on a spec-conforming <layer>.toml: %s\n%s" % (route, rep["detail"][:200], text[:300]), case)
+            if kind != "valid":
+                sh.nontrivial.add(("layer_toml", route, where, kind))
+                if "err" not in rep:
+                    sh.violation("layer-api:%s:%s" % (route, kind), "%s accepts a <layer>.toml the strict parser rejects (%s at %s); result %r, layer content afterwards %r\n%s"
+                                 % (route, kind, where, rep.get("state") or "LayerData", sorted(os.listdir(os.path.join(root, "layers", "L"))) if os.path.isdir(os.path.join(root, "layers", "L")) else None, text[:300]), case)
+    vp.rmtree(root)
+
+
 def shard_run(arg):
     seed, idxs, work = arg
     sh = vp.Shard()
     mon = vp.Mon("parse")
+    lmon = vp.Mon("layers")
     tmp = os.path.join(work, "c08-%d.toml" % os.getpid())
     fmts = list(FORMATS)
     try:
@@ -306,10 +357,13 @@ def shard_run(arg):
                     if x["ok"]:
                         sh.violation("%s:%s:%s" % (t, kind, where), "%s mutant (%s at %s) of a valid %s document is accepted as %s:\n%s"
                                      % (kind, kind, where, fmt, t, mt[:700]), {"format": fmt, "as": t, "kind": kind, "where": where, "text": mt})
+            if fmt == "layer_toml":
+                layer_api_routes(lmon, work, idx, text, mtexts, sh)
             if idx % 50 == 0:
                 sh.sample({"format": fmt, "valid_document_head": text[:300], "mutants_tried": len(mtexts), "mutant_kinds": sorted({k for k, _, _ in mtexts})}, cap=1)
     finally:
         mon.close()
+        lmon.close()
         if os.path.exists(tmp):
             os.unlink(tmp)
     return sh.dict()
@@ -330,6 +384,15 @@ def run(tier, seed, work):
 
 def replay(case, work):
     res = vp.Result("C08", "quick", 0, "exploration")
+    if case.get("route") == "layer-api":
+        sh = vp.Shard()
+        lmon = vp.Mon("layers")
+        layer_api_routes(lmon, work, 0, case["text"] if case["kind"] == "valid" else "", [] if case["kind"] == "valid" else [(case["kind"], case["where"], case["text"])], sh)
+        lmon.close()
+        sh.nontrivial.update({"replay-a", "replay-b"})
+        res.merge(sh.dict())
+        res.rule = "replay of one recorded case"
+        return res
     mon = vp.Mon("parse")
     rep = mon.call({"op": "docs", "items": [[case["as"], case["text"], False]], "tmp": os.path.join(work, "r.toml")})
     mon.close()
